@@ -226,6 +226,139 @@ def gen_mapping(rng):
     return {"kind": "mapping", "style": kind, "adds": adds, "queries": queries}
 
 
+def gen_mapseq(rng):
+    """Operation SEQUENCES on one live Mapping object: add / merge (what remapEntries(mapping=M) does with the rules of
+    manifest.remap) / inverse / apply interleaved - inverse() is taken, rules are merged in, inverse() is taken again.
+    Mostly sequences that keep the mapping one-to-one on explicit versions (distinct inputs and outputs per flavor)."""
+    prods = [gen_name(rng) for _ in range(rng.randint(2, 5))]
+    for i, p_ in enumerate(prods):
+        if not re.match(r"^[A-Za-z0-9_]+$", p_):
+            prods[i] = "prod%d" % i
+    flav = rng.choice([["generic"], [NATIVE], ["generic", NATIVE], ["generic", NATIVE, "Linux64"]])
+    bij = rng.random() < 0.75
+    ins, outs = set(), set()
+
+    def rule():
+        for _ in range(20):
+            f = rng.choice(flav)
+            i = (f, rng.choice(prods), rng.choice(["1.0", "2.0", "3.0"] if bij else ["1.0", "2.0", "any"]))
+            o = (f, rng.choice(prods + ["other", "repl"]), rng.choice(["4.0", "5.0", "6.0", "7.0"] if bij else ["4.0", "5.0", None]))
+            if bij and (i in ins or o in outs or (i[1], i[2]) == (o[1], o[2])):
+                continue
+            ins.add(i)
+            outs.add(o)
+            return {"inP": i[1], "inV": i[2], "outP": o[1] if (o[1] != i[1] or rng.random() < 0.5) else None, "outV": o[2],
+                    "flavor": f, "overwrite": True}
+        return None
+
+    ops = []
+    for _ in range(rng.randint(1, 3)):
+        r = rule()
+        if r:
+            ops.append(dict(r, op="add"))
+    ops.append({"op": "inverse"})
+    for _ in range(rng.randint(1, 3)):
+        k = rng.random()
+        if k < 0.55:
+            adds = [r for r in (rule() for _ in range(rng.randint(1, 3))) if r]
+            if bij:
+                # merge copies whole per-product tables: keep the merged-in products apart from those already there so
+                # that the result is the union (otherwise entries are replaced or skipped wholesale - also generated, below)
+                pass
+            ops.append({"op": "merge", "adds": adds, "overwrite": rng.random() < (0.3 if bij else 0.6)})
+        elif k < 0.8:
+            r = rule()
+            if r:
+                ops.append(dict(r, op="add"))
+        else:
+            ops.append({"op": "apply", "q": [rng.choice(prods), rng.choice(["1.0", "2.0", "3.0"]), rng.choice(flav + [NATIVE])]})
+        if rng.random() < 0.8:
+            ops.append({"op": "inverse"})
+    if ops[-1]["op"] != "inverse":
+        ops.append({"op": "inverse"})
+    return {"kind": "mapseq", "style": "bijective" if bij else "free", "ops": ops}
+
+
+def impl_mapseq(c):
+    from eups.distrib import server
+    m = server.Mapping()
+    out = []
+    for o in c["ops"]:
+        k = o["op"]
+        if k == "add":
+            m.add(o["inP"], o["inV"], o["outP"], o["outV"], o["flavor"], o["overwrite"])
+            out.append(None)
+        elif k == "merge":
+            before = dump_table(m._mapping)
+            m.merge(build_mapping(o["adds"]), overwrite=o["overwrite"])
+            out.append({"before": before, "after": dump_table(m._mapping)})
+        elif k == "apply":
+            out.append(list(m.apply(*o["q"])))
+        else:
+            rec = {"dump": dump_table(m._mapping)}
+            rows = [(f, p, v) for f, byp in m._mapping.items() for p, byv in byp.items() for v in byv]
+            try:
+                inv = m.inverse()
+                checks = []
+                for f, p, v in rows:
+                    r = m.apply(p, v, f)
+                    checks.append([f, p, v, list(r), None if r[1] is None else list(inv.apply(r[0], r[1], f))])
+                rec["inverse"] = {"dump": dump_table(inv._mapping), "checks": checks}
+            except RuntimeError:
+                rec["inverse"] = "RuntimeError"
+            except Exception as e:  # noqa
+                rec["inverse"] = "EXC:" + type(e).__name__
+            out.append(rec)
+    return {"out": out}
+
+
+def oracle_mapseq(c, io_):
+    """The inverse clause on a LIVE mapping, from the implementation's own observables: each time inverse() is taken, it
+    undoes the mapping as it is at that moment (its dump).  One-to-one (no two entries of one flavor with the same
+    image) => inverse() exists; every entry p:v -> q:w with an explicit in-version that is not an identity is applied by
+    apply() and taken back by the inverse's apply()."""
+    n = 0
+    for o, rec in zip(c["ops"], io_["out"]):
+        if o["op"] == "merge":
+            # merging rules in: a rule for a product the mapping does not mention yet (in that flavor) is there afterwards;
+            # without overwrite, what the mapping said about a product it already mentions stays
+            had = set((r[0], r[1]) for r in rec["before"])
+            final = {}
+            for a in o["adds"]:
+                if a["outV"] and a["outV"].lower() == "noreinstall":
+                    continue
+                final[(a["flavor"], a["inP"], a["inV"])] = [a["flavor"], a["inP"], a["inV"], a["outP"] or a["inP"], a["outV"] or None]
+            for (f, p, v), row in final.items():
+                if (f, p) not in had and row not in rec["after"]:
+                    yield ("merge_adds_the_rules", None, "merged rule %r is missing afterwards: %r" % (row, rec["after"][:8]))
+            if not o["overwrite"]:
+                for r in rec["before"]:
+                    if r not in rec["after"]:
+                        yield ("merge_adds_the_rules", None, "merge without overwrite dropped %r" % (r,))
+            continue
+        if o["op"] != "inverse":
+            continue
+        n += 1
+        rows = [r for r in rec["dump"] if r[2] is not None]
+        images = [(r[0], r[3], r[4]) for r in rows if r[4] is not None]
+        one_to_one = len(images) == len(set(images))
+        inv = rec["inverse"]
+        if not isinstance(inv, dict):
+            if one_to_one:
+                yield ("inverse_exists", None, "inverse #%d: the mapping %r is one-to-one, inverse() raised %s" % (n, rows[:6], inv))
+            continue
+        table = {(r[0], r[1], r[2]): (r[3], r[4]) for r in rows}
+        for f, p, v, fwd, back in inv["checks"]:
+            q, w = table[(f, p, v)]
+            if w is None or v == "any" or (p, v) == (q, w):
+                continue
+            if tuple(fwd) != (q, w):
+                yield ("remap_replaces_as_named", None, "inverse #%d: %s:%s [%s] applied gives %r, the table says %r" % (n, p, v, f, fwd, (q, w)))
+            elif back is None or tuple(back) != (p, v):
+                yield ("inverse_undoes", None, "inverse #%d (taken after %d operations): %s:%s -> %s:%s -> %r [%s]" %
+                       (n, c["ops"].index(o) if o in c["ops"] else -1, p, v, q, w, back, f))
+
+
 def gen_remap(rng):
     """Rules are generated with their meaning: (product, in-version or any, action, flavor, mode)."""
     n = rng.randint(0, 12)
@@ -532,7 +665,7 @@ def impl_remap(c, E=None):
 
 
 def impl_case(c):
-    return {"manifest": impl_manifest, "taglist": impl_taglist, "mapping": impl_mapping, "remap": impl_remap,
+    return {"manifest": impl_manifest, "taglist": impl_taglist, "mapping": impl_mapping, "mapseq": impl_mapseq, "remap": impl_remap,
             "server": impl_server}[c["kind"]](c)
 
 
@@ -806,7 +939,7 @@ def oracle_server(c, io_):
 
 
 ORACLES = {"manifest": oracle_manifest, "taglist": oracle_taglist, "mapping": oracle_mapping, "remap": oracle_remap,
-           "server": oracle_server}
+           "server": oracle_server, "mapseq": oracle_mapseq}
 
 
 # ---- model -----------------------------------------------------------------------------------------
@@ -829,6 +962,8 @@ def model_requests(c, io_):
         return [{"m": "c18", "op": "server", "files": io_["files"], "reqs": c["reqs"], "byTagOnly": False}]
     if k == "mapping":
         return [{"m": "c18", "op": "mapping", "adds": c["adds"], "queries": c["queries"]}]
+    if k == "mapseq":
+        return [{"m": "c18", "op": "mapseq", "ops": c["ops"]}]
     if k == "remap":
         return [{"m": "c18", "op": "remap", "adds": c["adds"], "files": c["files"], "mode": c["mode"], "flavor": NATIVE,
                  "deps": c["deps"], "pinned": False, "known": c.get("known", [])}]
@@ -849,7 +984,7 @@ def model_output(c, io_, answers):
         if len(answers) > 1:
             out["read"] = answers[1]
         return out
-    if k == "mapping":
+    if k in ("mapping", "mapseq"):
         return answers[0]
     if k == "server":
         return {"answers": answers[0]["answers"]}
@@ -892,6 +1027,8 @@ def nontrivial(c, io_):
         return False
     if k == "mapping":
         return any(list(r) != q[:2] for q, r in zip(c["queries"], io_.get("applied", [])))
+    if k == "mapseq":
+        return any(isinstance(r, dict) and isinstance(r.get("inverse"), dict) and r["inverse"]["checks"] for r in io_.get("out", []))
     return "deps" in io_ and io_["deps"] != c["deps"]
 
 
@@ -924,6 +1061,20 @@ def evaluate(ctx, cases):
                 ctx.hist("manifest:mixed-flavors")
         elif kind == "taglist":
             ctx.hist("taglist:%s" % ("clean" if clean_taglist(c) else "dirty"))
+        elif kind == "mapseq":
+            ctx.hist("mapseq:%s" % c["style"])
+            invs = [r for o, r in zip(c["ops"], io_["out"]) if o["op"] == "inverse"]
+            ctx.hist("mapseq:inverse-taken", len(invs))
+            seen_merge = False
+            n_after = 0
+            for o, r in zip(c["ops"], io_["out"]):
+                if o["op"] == "merge" and o["adds"]:
+                    seen_merge = True
+                elif o["op"] == "inverse" and seen_merge and isinstance(r["inverse"], dict) and \
+                        any(ch[4] is not None and ch[3] != [ch[1], ch[2]] for ch in r["inverse"]["checks"]):
+                    n_after += 1
+            if n_after and isinstance(invs[0]["inverse"], dict):
+                ctx.hist("mapseq:inverse-again-after-merge")
         elif kind == "mapping":
             ctx.hist("mapping:%s" % c["style"])
             ctx.hist("mapping:inverse=%s" % ("ok" if isinstance(io_["inverse"], dict) else io_["inverse"]))
@@ -965,7 +1116,8 @@ def corpus_cases():
     return out
 
 
-GEN = {"manifest": gen_manifest, "taglist": gen_taglist, "mapping": gen_mapping, "remap": gen_remap, "server": gen_server}
+GEN = {"manifest": gen_manifest, "taglist": gen_taglist, "mapping": gen_mapping, "remap": gen_remap, "server": gen_server,
+       "mapseq": gen_mapseq}
 
 
 def enum_mappings():
@@ -992,7 +1144,7 @@ def run(ctx):
     en = enum_mappings()
     ctx.hist("enumerated-mappings", len(en))
     evaluate(ctx, en)
-    for kind, n in (("manifest", ctx.n(3000, 60000)), ("taglist", ctx.n(1500, 30000)), ("mapping", ctx.n(2000, 40000)),
+    for kind, n in (("manifest", ctx.n(3000, 60000)), ("taglist", ctx.n(1500, 30000)), ("mapping", ctx.n(2000, 40000)), ("mapseq", ctx.n(1500, 30000)),
                     ("remap", ctx.n(2000, 40000)), ("server", ctx.n(1200, 25000))):
         done = 0
         while done < n and not ctx.out_of_time():
@@ -1005,6 +1157,9 @@ def run(ctx):
     if h.get("server:mixed-flavors-several-readers", 0) < 0.5 * max(1, h.get("kind=server", 0)):
         raise common.InfraError("degenerate distribution: %d server histories asking several flavors of a mixed-flavor release"
                                 % h.get("server:mixed-flavors-several-readers", 0))
+    if h.get("mapseq:inverse-again-after-merge", 0) < 100:
+        raise common.InfraError("degenerate distribution: inverse() taken, rules merged in, inverse() taken again with entries "
+                                "to undo: %d sequences" % h.get("mapseq:inverse-again-after-merge", 0))
     if h.get("remap:dummy-declared", 0) < 15:
         raise common.InfraError("degenerate distribution: the dummy branch of remapEntries declared a product in %d cases"
                                 % h.get("remap:dummy-declared", 0))
